@@ -127,3 +127,26 @@ Fixpoint check_dangling_loop (outs : list Z) (P : iprogram) : outcome unit :=
       else Err ($"dangling")
   end.
 Definition check_dangling (P : iprogram) : outcome unit := check_dangling_loop [0] P.
+
+(* ---- specification: what a generated name says (independent of the code above) ---- *)
+
+(* the number a digit string denotes, most significant digit first *)
+Definition dstep (base a c : N) : N := (a * base + (c - 48))%N.
+Definition digits_val (base : N) (s : list N) : N := fold_left (dstep base) s 0%N.
+Definition digit_of (base c : N) : Prop := (48 <= c /\ c < 48 + base)%N.
+
+(* the three shapes: _[01]+   x[0-9]+   i[0-9]+ *)
+Inductive name_shape : list N -> Prop :=
+| shape_byte b : b <> [] -> Forall (digit_of 2) b -> name_shape (95%N :: b)
+| shape_xrun d : d <> [] -> Forall (digit_of 10) d -> name_shape (120%N :: d)
+| shape_idx d : d <> [] -> Forall (digit_of 10) d -> name_shape (105%N :: d).
+
+(* a name on the element with value x at chain index idx: _b says x = b (binary),
+   xN says x = 2^N - 1, iN says idx = N *)
+Definition describes (nm : list N) (x idx : Z) : Prop :=
+  match nm with
+  | 95%N :: b => x = Z.of_N (digits_val 2 b)
+  | 120%N :: d => x = 2 ^ Z.of_N (digits_val 10 d) - 1
+  | 105%N :: d => idx = Z.of_N (digits_val 10 d)
+  | _ => False
+  end.
